@@ -344,4 +344,74 @@ class QuoteRoundTrip(Bounded):
         return None
 
 
-BOUNDED = [SplitAscii, SplitMultibyte, SplitLowQuoted, QuoteRoundTrip]
+class RateLimitedQueue(Bounded):
+    prop = "C43"
+    title = "with lineRate set the lines of every message still reach the wire, in order, one per interval"
+    scope = ("lineRate 1; 1..3 messages (msg / notice) of 1..3 lines each at limit 40; the clock advanced between the "
+             "messages by {0, 1, enough to drain the queue, twice that}; every combination")
+    functions = ["IRCClient.sendLine", "IRCClient._sendLine", "IRCClient._reallySendLine", "IRCClient.msg", "IRCClient.notice"]
+
+    def cases(self, tier, rng):
+        texts = ["a" * 5, "word " * 9, "x" * 20 + " " + "y" * 20 + " " + "z" * 20]
+        for n in (1, 2, 3):
+            for combo in itertools.product(range(len(texts)), repeat=n):
+                for gaps in itertools.product(("none", "one", "drain", "drain2"), repeat=n - 1):
+                    for kinds in itertools.product(("msg", "notice"), repeat=n):
+                        if tier == "quick" and n == 3 and (combo[0] + combo[1] + combo[2] + len(gaps[0])) % 3:
+                            continue
+                        yield (tuple(texts[k] for k in combo), gaps, kinds)
+
+    def check(self, case):
+        from twisted.internet import task
+        texts, gaps, kinds = case
+        clock = task.Clock()
+        saved = irc.reactor
+        irc.reactor = clock
+        try:
+            client = irc.IRCClient()
+            client.performLogin = False
+            client.lineRate = 1
+            transport = StringTransport()
+            client.makeConnection(transport)
+            transport.clear()
+            for k, text in enumerate(texts):
+                method, arg, _, _ = KINDS[kinds[k]]
+                getattr(client, method)(arg, text, 40)
+                if k < len(gaps):
+                    g = gaps[k]
+                    steps = {"none": 0, "one": 1, "drain": 12, "drain2": 24}[g]
+                    for _ in range(steps):
+                        clock.advance(1)
+            for _ in range(60):
+                clock.advance(1)
+            wire = transport.value()
+            left = list(client._queue)
+        finally:
+            irc.reactor = saved
+        if left:
+            return "lines stuck in the send queue for ever: %r (wire so far %r)" % (left, wire[-80:])
+        lines = wire_lines(wire)
+        if lines is None:
+            return "last line not terminated: %r" % (wire[-20:],)
+        # the wire is the concatenation of the messages' lines, in order: judge each message on its share
+        pos = 0
+        for k, text in enumerate(texts):
+            _, _, command, target = KINDS[kinds[k]]
+            want = visible(text)
+            got = ""
+            head = ("%s %s :" % (command, target)).encode("utf-8")
+            first = pos
+            while pos < len(lines) and visible(got) != want:
+                body, n = lines[pos]
+                if not body.startswith(head) or n > 40:
+                    return "message %d: unexpected line %r (limit 40)" % (k, body)
+                got += body[len(head):].decode("utf-8")
+                pos += 1
+            if visible(got) != want:
+                return "message %d: lines %r carry %r, message is %r" % (k, lines[first:pos], visible(got), want)
+        if pos != len(lines):
+            return "extra lines on the wire: %r" % (lines[pos:],)
+        return None
+
+
+BOUNDED = [SplitAscii, SplitMultibyte, SplitLowQuoted, QuoteRoundTrip, RateLimitedQueue]
